@@ -162,6 +162,8 @@ def run_C16(ctx, R):
     _per_config(ctx, R, utilsx.pfx1)
     from .rules import shape
     _per_config(ctx, R, lambda units, r: shape.shp1(units, r, only_unit='cJSON_Utils.c'))
+    from .rules import tree
+    _scoped(ctx, R, tree.tab3, C16_ENTRIES, 4)
 
 
 def _own_utils(names):
@@ -182,6 +184,8 @@ def run_C17(ctx, R):
     _scoped(ctx, R, out.out7, C17_ENTRIES, 3)
     _per_config(ctx, R, utilsx.gen1)
     _per_config(ctx, R, utilsx.dig1)
+    from .rules import tree
+    _scoped(ctx, R, tree.tab3, C17_ENTRIES, 4)
     _scoped(ctx, R, utilsx.esc1, C17_ENTRIES, 1)
     _per_config(ctx, R, tab.tab9)
     _scoped(ctx, R, out.out5, C17_ENTRIES, 3)
@@ -199,6 +203,8 @@ def run_C18(ctx, R):
     _scoped(ctx, R, tab.tab11, C18_ENTRIES, 15)
     _scoped(ctx, R, lst.lst1, C18_ENTRIES, 3)
     _per_config(ctx, R, lst.lst5)
+    from .rules import tree
+    _scoped(ctx, R, tree.tab3, C18_ENTRIES, 6)
 
 
 def run_C19(ctx, R):
@@ -705,6 +711,7 @@ PROPERTIES = {
     'C16': {
         'run': run_C16, 'modules': ['utils', 'own'],
         'explanation':
+            "TAB3: in every function reachable from the entry points the kind of a node is examined only through the 0xFF mask (or a cJSON_Is* predicate); two type words are never compared raw, so ownership flags cannot make equal kinds look different. "
             "Survival and table clauses of patch application on every function reachable from cJSONUtils_ApplyPatches*. "
             "TAB12: every payload field (valuestring/child/value*) of a node looked up in the caller-supplied patch "
             "document is used only under the matching cJSON_Is* test of that node. PFX1: a strncmp/memcmp of two pointer texts over the "
@@ -724,6 +731,7 @@ PROPERTIES = {
     'C17': {
         'run': run_C17, 'modules': ['utils', 'own'],
         'explanation':
+            "TAB3: in every function reachable from the entry points the kind of a node is examined only through the 0xFF mask (or a cJSON_Is* predicate); two type words are never compared raw, so ownership flags cannot make equal kinds look different. "
             "CMP1: compare_strings over all 65536 byte pairs per flag value: exact mode is strcmp of the two arguments; folding mode continues exactly on fold-equal non-terminator pairs, returns 0 at a common terminator and otherwise a value with the sign of the folded difference (lower or upper fold, one of them throughout), because the sorter and the generator look at the sign. "
             "Path construction and input preservation clauses of patch generation. OUT7: each path buffer (compose_patch, "
             "create_patches array and object arms) is sized for what is written, with the encoded length taken of the "
@@ -742,6 +750,7 @@ PROPERTIES = {
     'C18': {
         'run': run_C18, 'modules': ['utils', 'own'],
         'explanation':
+            "TAB3: in every function reachable from the entry points the kind of a node is examined only through the 0xFF mask (or a cJSON_Is* predicate); two type words are never compared raw, so ownership flags cannot make equal kinds look different. "
             "TAB11: on every function reachable from the four merge-patch entry points the case_sensitive flag is passed "
             "unchanged (never a constant, never through a case-folding public entry point) at every nesting level. "
             "LST1/LST5: generation sorts both inputs through sort_object, which restores the tail link and only re-links. INP: "
